@@ -428,6 +428,10 @@ def seed_dict():
 DICT_VALUES = ["", "x", 5, None, [], [1, "x"], {"k": 1}, True, "not-an-id", "2020-13-45", [2, 1], "(1,2)", 1.5]
 
 
+PLAIN_ATTRS = ("author", "date", "version", "type", "unit", "definition", "reference", "sec_cardinality", "val_cardinality",
+               "prop_cardinality", "uncertainty", "value_origin")
+
+
 def dict_mutations():
     """(label, data, judged, ids inside the mutated object)"""
     base = seed_dict()
@@ -477,6 +481,10 @@ def dict_mutations():
         key = p[-1]
         cur = get(base, p)
         ids = ids_of(base, p[:-1])
+        if isinstance(key, str) and key in PLAIN_ATTRS:
+            # a problem with one plain attribute of an object: the object itself, its id and everything below it
+            # are valid parts and stay
+            ids = set()
         # delete the key
         if isinstance(key, str):
             d = copy.deepcopy(base)
@@ -487,7 +495,9 @@ def dict_mutations():
                 d = copy.deepcopy(base)
                 tgt = get(d, p[:-1])
                 tgt[nk] = tgt.pop(key)
-                out.append(("rename:%s->%s" % (key, "upper" if nk == key.upper() else nk), d, True, ids))
+                # renamed to 'value' it replaces the values of a Property, which may then not be creatable
+                out.append(("rename:%s->%s" % (key, "upper" if nk == key.upper() else nk), d, True,
+                            ids_of(base, p[:-1]) if nk == "value" else ids))
         # replace the value
         for v in DICT_VALUES:
             d = copy.deepcopy(base)
